@@ -230,6 +230,7 @@ func runC17(e *Engine, r *Report) {
 	ruleResetProgress(e, r)
 	ruleConfigChangeClearsPending(e, r)
 	ruleSendQueueWorkerCleanup(e, r)
+	rulePoisonBlocking(e, r)
 }
 
 // c17Tables: node.tick advances every table clock on every path; gc reachable.
